@@ -9,5 +9,5 @@ git apply "$patch" || { echo "patch does not apply"; exit 2; }
 ev=/verif/evidence/$id.json
 [ -f "$ev" ] && cp "$ev" "$ev.saved"
 trap 'git -C /repo checkout -- . ; [ -f "$ev.saved" ] && mv "$ev.saved" "$ev"' EXIT
-cd /verif && bin/vcheck "$id" "$@" 2>&1 | tail -12
+cd /verif && timeout -k 10 ${TRYMUT_TIMEOUT:-2400} bin/vcheck "$id" "$@" 2>&1 | tail -12
 echo "exit=${PIPESTATUS[0]}"
